@@ -444,6 +444,16 @@ def run(ctx) -> Report:
     rep.mc_runs.append({"name": "Trace_ScramHandshake", "traces": len(traces), "distinct": states,
                         "self_test_corruptions_rejected": len(corrupt)})
 
+    # RFC 5802: the client nonce is fresh for every authentication exchange (what makes a recorded server-first /
+    # server-final pair worthless to an impostor).  All logins of this run happened in ONE process.
+    seen_nonce = {}
+    for c, info in zip(cases, infos):
+        if c.get("force_nonce") is None and info.get("cnonce"):
+            if info["cnonce"] in seen_nonce:
+                rep.violations.append(Violation("C18:client-nonce-reused", {
+                    "case": case_public(c), "first_use": seen_nonce[info["cnonce"]], "cnonce": info["cnonce"]}))
+                break
+            seen_nonce[info["cnonce"]] = case_public(c).get("variant")
     nviol = 0
     for c, t, info, v in zip(cases, traces, infos, ver):
         if v["accepted"] and not v["bad_name"]:
